@@ -143,6 +143,13 @@ func (v *ControllerVisitor) visitController(controllerNode *ast.TypeSpec) (metad
 
 	// Go over all enumerated source files and look for receivers for the controller
 	for _, file := range v.context.ArbitrationProvider.GetAllSourceFiles() {
+		// Receivers are matched by the bare name of their receiver type, so only files of the controller's
+		// own package may contribute - a controller of the same name in another package is a different type
+		filePkg, err := v.context.ArbitrationProvider.Pkg().GetPackageForFile(file)
+		if err != nil || filePkg == nil || filePkg.PkgPath != controllerMeta.Struct.PkgPath {
+			continue
+		}
+
 		for _, declaration := range file.Decls {
 			switch funcDeclaration := declaration.(type) {
 			case *ast.FuncDecl:
